@@ -169,7 +169,7 @@ contract(LAN + "_LanProtocol._flush",
          params={"self": "obj:" + V3},
          raises={}, modifies=["self._queue"],
          ensures={"drained": "self._queue.empty()"},
-         loops={"0": {"modifies": ["self._queue"], "havoc": {"self._queue": "ext:queue:v3_queued"}}})
+         loops={"0": {"match": "True", "modifies": ["self._queue"], "havoc": {"self._queue": "ext:queue:v3_queued"}}})
 
 contract(LAN + "_LanProtocol.write",
          params={"self": "obj:" + V3, "data": "bytes"},
@@ -276,6 +276,7 @@ contract(V3 + ".data_received",
          ensures={"buffer_is_the_unconsumed_tail": "self._buffer == S[final('b'):pos2] and b0 <= final('b') <= pos2",
                   "nothing_deliverable_is_withheld": "not holds_complete_packet(self._buffer)"},
          loops={"0": {
+             "match": "len(self._buffer) > 0",
              "ghost_init": {"b": "b0", "st": "0", "en": "0"},
              "modifies": ["self._buffer", "self._queue"],
              "havoc": {"b": "int[0,1099511627776]", "st": "int[0,1099511627776]", "en": "int[0,1099511627776]",
@@ -324,7 +325,7 @@ contract(LANC + "._read_available",
          yields="bytes",
          modifies=["self._protocol._queue"],
          raises={LAN + "ProtocolError": {}},
-         loops={"0": {"modifies": ["self._protocol._queue"]}},
+         loops={"0": {"match": "True", "modifies": ["self._protocol._queue"]}},
          notes="async generator: yields decoded frames until the queue is empty; only QueueEmpty is swallowed")
 
 
@@ -351,7 +352,7 @@ contract(LANC + ".authenticate",
                   "v3_session": "isinstance(self._protocol, _LanProtocolV3) and self._protocol._local_key is not None and lan_inv(self)",
                   "only_handshake_requests_sent": "all_handshakes(T, tok)",
                   "at_least_one_at_most_retries": "1 <= len(T) <= retries"},
-         loops={"0": {"ghost_init": {"n": "0"}, "havoc": {"n": "int[0,8]"},
+         loops={"0": {"match": "retries > 0", "ghost_init": {"n": "0"}, "havoc": {"n": "int[0,8]"},
                       "modifies": ["self._protocol._local_key", "self._protocol._local_key_expiration", "self._protocol._packet_id", "self._protocol._queue"],
                       "invariant": ["n == old_retries - retries", "1 <= retries", "lan_inv(self)", "isinstance(self._protocol, _LanProtocolV3)"],
                       "ghost_step": {"n": "pre(n) + 1"}}})
@@ -393,15 +394,15 @@ contract(LANC + ".send",
                   "c01.packet_wraps_the_frame": "pkcs7(data) == aes_ecb_dec(md5(SIGN_KEY), final('packet')[40:-16]) and final('packet')[20:28] == self._device_id.to_bytes(8, 'little')",
                   "c01.packet_is_what_is_written": "implies(not isinstance(self._protocol, _LanProtocolV3), events('tx')[-1] == final('packet')) and implies(isinstance(self._protocol, _LanProtocolV3), is_data_packet_for(events('tx')[-1], self._protocol, final('packet')))",
                   "data_goes_out_on_the_current_connection": "all(same_object(t, self._protocol._transport) for t in events('tx_on'))"},
-         loops={"0": {"havoc": {"responses": "list:bytes"}},
-                "1": {"ghost_init": {"n": "0"}, "havoc": {"n": "int[0,8]", "responses": "list:bytes"},
+         loops={"0": {"match": "_read_available", "havoc": {"responses": "list:bytes"}},
+                "1": {"match": "retries > 0", "ghost_init": {"n": "0"}, "havoc": {"n": "int[0,8]", "responses": "list:bytes"},
                       "modifies": ["self._protocol._packet_id", "self._protocol._queue"],
                       "invariant": ["n == old_retries - retries", "1 <= retries", "lan_inv(self)", "self._protocol is not None",
                                     "implies(isinstance(self._protocol, _LanProtocolV3), self._protocol._local_key is not None)"],
                       "ghost_step": {"n": "pre(n) + 1"},
                       "step_hints": {"one_transmission_per_iteration": "len(events('tx')) == pre(len(events('tx'))) + 1"},
                       "variant": "retries"},
-                "2": {"havoc": {"responses": "list:bytes"}, "invariant": ["len(responses) >= 1"]}})
+                "2": {"match": "_read_available", "havoc": {"responses": "list:bytes"}, "invariant": ["len(responses) >= 1"]}})
 
 
 # ---- small LAN helpers by contract (keeps LAN.send's paths few) -------------------------------------------------------------
